@@ -242,7 +242,7 @@ Lemma live_len_upto : forall a b c n,
   N.to_nat (N.min (N.of_nat n) a + N.min (N.of_nat n) b + N.min (N.of_nat n) c).
 Proof.
   intros a b c n. induction n as [|n IH].
-  - reflexivity.
+  - cbn [seq flat_map filter length]. lia.
   - rewrite seq_S, flat_map_app, filter_app, app_length, IH.
     cbn [flat_map level app filter livef nth plus].
     destruct (N.ltb_spec (N.of_nat n) a), (N.ltb_spec (N.of_nat n) b),
@@ -344,4 +344,342 @@ Proof.
   - assumption.
   - rewrite <- live_pairs_filter, live_len by (rewrite map_length; assumption).
     cbn [length]. lia.
+Qed.
+
+(* ---------- inverse and injectivity ---------- *)
+
+Lemma mod_pow2_succ : forall x n,
+  x mod 2 ^ N.succ n = x mod 2 ^ n + (if N.testbit x n then 2 ^ n else 0).
+Proof.
+  intros x n. rewrite N.pow_succ_r', (N.mul_comm 2).
+  rewrite N.mod_mul_r by (apply pow2_nz || discriminate).
+  rewrite <- N.testbit_spec'. destruct (N.testbit x n); cbn [N.b2n]; lia.
+Qed.
+
+Lemma lt_pow2_log2_up : forall x g, x < g -> x < 2 ^ N.log2_up g.
+Proof.
+  intros x g H. pose proof (N.log2_log2_up_spec g ltac:(lia)). lia.
+Qed.
+
+Lemma collect_app : forall d p l1 l2,
+  collect d (l1 ++ l2) (map (bitf p) (l1 ++ l2)) =
+  collect d l1 (map (bitf p) l1) + collect d l2 (map (bitf p) l2).
+Proof.
+  intros d p l1 l2. induction l1 as [|[i d'] l1 IH].
+  - cbn [app map collect]. lia.
+  - cbn [app map collect]. rewrite IH. lia.
+Qed.
+
+Lemma collect_level : forall d nb p n, (d < 3)%nat ->
+  collect d (filter (livef nb) (level n)) (map (bitf p) (filter (livef nb) (level n))) =
+  if N.of_nat n <? nth d nb 0
+  then (if N.testbit (nth d p 0) (N.of_nat n) then 2 ^ N.of_nat n else 0) else 0.
+Proof.
+  intros d nb p n Hd.
+  destruct d as [|[|[|d]]]; [| | |lia]; cbn [level filter livef];
+    destruct (N.of_nat n <? nth 0 nb 0), (N.of_nat n <? nth 1 nb 0),
+      (N.of_nat n <? nth 2 nb 0);
+    cbn [map bitf collect Nat.eqb]; lia.
+Qed.
+
+Lemma collect_upto : forall d nb p n, (d < 3)%nat ->
+  let L := filter (livef nb) (flat_map level (seq 0 n)) in
+  collect d L (map (bitf p) L) = nth d p 0 mod 2 ^ N.min (N.of_nat n) (nth d nb 0).
+Proof.
+  intros d nb p n Hd. cbv zeta. induction n as [|n IH].
+  - cbn [seq flat_map filter map collect].
+    change (N.of_nat 0) with 0. rewrite N.min_0_l. change (2 ^ 0) with 1.
+    rewrite N.mod_1_r. destruct d; reflexivity.
+  - rewrite seq_S, flat_map_app, filter_app, collect_app, IH.
+    cbn [flat_map plus]. rewrite app_nil_r, collect_level by assumption.
+    rewrite Nat2N.inj_succ.
+    destruct (N.ltb_spec (N.of_nat n) (nth d nb 0)) as [Hl|Hl].
+    + rewrite N.min_l by lia. rewrite (N.min_l (N.succ _)) by lia.
+      symmetry. apply mod_pow2_succ.
+    + rewrite !N.min_r by lia. lia.
+Qed.
+
+Lemma collect_live : forall d g p, (d < 3)%nat -> length g = 3%nat ->
+  nth d p 0 < nth d g 0 ->
+  let nb := map spec_nbits g in
+  collect d (live_pairs nb) (map (bitf p) (live_pairs nb)) = nth d p 0.
+Proof.
+  intros d g p Hd Hg Hlt nb. rewrite live_pairs_filter.
+  rewrite (collect_upto d nb p _ Hd).
+  assert (Hmax : nth d nb 0 <= maxN nb).
+  { subst nb. destruct g as [|g0 [|g1 [|g2 [|]]]]; try discriminate.
+    cbn [map maxN fold_right].
+    destruct d as [|[|[|d]]]; [| | |lia]; cbn [nth]; lia. }
+  rewrite N2Nat.id, N.min_r by assumption.
+  apply N.mod_small. subst nb. rewrite nth_spec_nbits.
+  apply lt_pow2_log2_up. assumption.
+Qed.
+
+Lemma uncmc_cmc : forall g p, in_grid g p -> uncmc g (cmc_spec g p) = p.
+Proof.
+  intros g p (Hp & Hg & Hlt). unfold uncmc, cmc_spec. cbv zeta.
+  rewrite cmc_bits_eq.
+  pose proof (to_bits_from_bits (map (bitf p) (live_pairs (map spec_nbits g)))) as Hb.
+  rewrite map_length in Hb. rewrite Hb.
+  rewrite !collect_live by (try apply Hlt; auto).
+  destruct p as [|p0 [|p1 [|p2 [|]]]]; try discriminate. reflexivity.
+Qed.
+
+Lemma cmc_spec_inj : forall g p q,
+  in_grid g p -> in_grid g q -> cmc_spec g p = cmc_spec g q -> p = q.
+Proof.
+  intros g p q Hp Hq H.
+  rewrite <- (uncmc_cmc g p Hp), <- (uncmc_cmc g q Hq), H. reflexivity.
+Qed.
+
+(* ---------- shard file names ---------- *)
+
+Lemma hex_fixed_0 : forall w, hex_fixed w 0 = repeat 48 w.
+Proof.
+  induction w as [|w IH]; [reflexivity|].
+  cbn [hex_fixed]. change (0 / 16) with 0. change (hex_digit (0 mod 16)) with 48.
+  rewrite IH. cbn [repeat]. symmetry. apply repeat_cons.
+Qed.
+
+Lemma hex_pos_acc : forall f n acc, hex_pos f n acc = hex_pos f n [] ++ acc.
+Proof.
+  induction f as [|f IH]; intros n acc; [reflexivity|].
+  cbn [hex_pos]. destruct (n =? 0); [reflexivity|].
+  rewrite IH, (IH _ [_]), <- app_assoc. reflexivity.
+Qed.
+
+Lemma pow16_succ : forall w, 16 ^ N.of_nat (S w) = 16 * 16 ^ N.of_nat w.
+Proof. intro w. rewrite Nat2N.inj_succ, N.pow_succ_r'. reflexivity. Qed.
+
+Lemma pow2_of_nat_succ : forall f, 2 ^ N.of_nat (S f) = 2 * 2 ^ N.of_nat f.
+Proof. intro f. rewrite Nat2N.inj_succ, N.pow_succ_r'. reflexivity. Qed.
+
+(* with enough fuel, hex_pos yields the minimal digit string: padding it to
+   any sufficient width gives the fixed-width rendering *)
+Lemma hex_pos_fixed : forall f n w,
+  n < 2 ^ N.of_nat f -> n < 16 ^ N.of_nat w ->
+  (length (hex_pos f n []) <= w)%nat /\
+  (n <> 0 -> (1 <= length (hex_pos f n []))%nat) /\
+  repeat 48 (w - length (hex_pos f n [])) ++ hex_pos f n [] = hex_fixed w n.
+Proof.
+  induction f as [|f IH]; intros n w Hf Hw.
+  - change (2 ^ N.of_nat 0) with 1 in Hf. assert (n = 0) by lia. subst n.
+    cbn [hex_pos length]. rewrite hex_fixed_0, Nat.sub_0_r, app_nil_r.
+    repeat split; [lia | congruence].
+  - cbn [hex_pos]. destruct (N.eqb_spec n 0) as [->|Hn].
+    + cbn [length]. rewrite hex_fixed_0, Nat.sub_0_r, app_nil_r.
+      repeat split; [lia | congruence].
+    + destruct w as [|w]; [change (16 ^ N.of_nat 0) with 1 in Hw; lia|].
+      rewrite pow16_succ in Hw. rewrite pow2_of_nat_succ in Hf.
+      rewrite hex_pos_acc.
+      destruct (IH (n / 16) w) as (Hl & _ & He).
+      { apply N.div_lt_upper_bound; [discriminate|]. pose proof (pow2_pos (N.of_nat f)). lia. }
+      { apply N.div_lt_upper_bound; [discriminate|]. assumption. }
+      rewrite app_length. cbn [length hex_fixed].
+      repeat split; [lia | lia |].
+      rewrite <- He, <- app_assoc.
+      replace (S w - (length (hex_pos f (n / 16) []) + 1))%nat
+        with (w - length (hex_pos f (n / 16) []))%nat by lia.
+      reflexivity.
+Qed.
+
+Lemma lt_pow16_width : forall s key,
+  key < 2 ^ s -> key < 16 ^ N.of_nat (Nat.max 1 (N.to_nat ((s + 3) / 4))).
+Proof.
+  intros s key H. change 16 with (2 ^ 4). rewrite <- N.pow_mul_r.
+  eapply N.lt_le_trans; [exact H|].
+  apply N.pow_le_mono_r; [discriminate|].
+  assert (s <= 4 * ((s + 3) / 4)).
+  { pose proof (N.div_mod (s + 3) 4 ltac:(discriminate)).
+    pose proof (N.mod_lt (s + 3) 4 ltac:(discriminate)). lia. }
+  lia.
+Qed.
+
+Lemma shard_name_is_spec : forall s key,
+  key < 2 ^ s -> shard_name_model s key = spec_name s key.
+Proof.
+  intros s key H. pose proof (lt_pow16_width s key H) as HW.
+  unfold shard_name_model, spec_name, rjust, hex_of.
+  set (w := N.to_nat ((s + 3) / 4)) in *.
+  destruct (N.eqb_spec key 0) as [->|Hk].
+  - rewrite hex_fixed_0. cbn [length].
+    replace (Nat.max 1 w) with (S (w - 1)) by lia.
+    cbn [repeat]. symmetry. apply repeat_cons.
+  - destruct (hex_pos_fixed (S (N.to_nat (N.log2 key))) key (Nat.max 1 w))
+      as (Hl & H1 & He).
+    { rewrite Nat2N.inj_succ, N2Nat.id. apply N.log2_spec. lia. }
+    { exact HW. }
+    specialize (H1 Hk). rewrite <- He. f_equal. f_equal. lia.
+Qed.
+
+Lemma unhex_hex_digit : forall d, d < 16 -> unhex_digit (hex_digit d) = Some d.
+Proof.
+  intros d H. unfold hex_digit, unhex_digit.
+  destruct (N.ltb_spec d 10).
+  - replace (48 <=? 48 + d) with true by (symmetry; apply N.leb_le; lia).
+    replace (48 + d <? 58) with true by (symmetry; apply N.ltb_lt; lia).
+    cbn [andb]. f_equal. lia.
+  - replace (87 + d <? 58) with false by (symmetry; apply N.ltb_ge; lia).
+    rewrite andb_false_r.
+    replace (97 <=? 87 + d) with true by (symmetry; apply N.leb_le; lia).
+    replace (87 + d <? 103) with true by (symmetry; apply N.ltb_lt; lia).
+    cbn [andb]. f_equal. lia.
+Qed.
+
+Lemma unhex_acc_app : forall l1 l2 acc,
+  unhex_acc (l1 ++ l2) acc =
+  match unhex_acc l1 acc with Some a => unhex_acc l2 a | None => None end.
+Proof.
+  induction l1 as [|c l1 IH]; intros l2 acc; [reflexivity|].
+  cbn [app unhex_acc]. destruct (unhex_digit c); [apply IH | reflexivity].
+Qed.
+
+Lemma unhex_acc_hex_fixed : forall w n acc,
+  unhex_acc (hex_fixed w n) acc = Some (acc * 16 ^ N.of_nat w + n mod 16 ^ N.of_nat w).
+Proof.
+  induction w as [|w IH]; intros n acc.
+  - cbn [hex_fixed unhex_acc]. change (16 ^ N.of_nat 0) with 1.
+    rewrite N.mod_1_r. f_equal. lia.
+  - cbn [hex_fixed]. rewrite unhex_acc_app, IH. cbn [unhex_acc].
+    rewrite unhex_hex_digit by (apply N.mod_lt; discriminate).
+    rewrite pow16_succ.
+    rewrite (N.mod_mul_r n 16) by (try discriminate; apply N.pow_nonzero; discriminate).
+    f_equal. lia.
+Qed.
+
+Lemma spec_name_unhex : forall s key,
+  key < 2 ^ s -> unhex (spec_name s key) = Some key.
+Proof.
+  intros s key H. pose proof (lt_pow16_width s key H) as HW.
+  unfold spec_name. set (W := Nat.max 1 (N.to_nat ((s + 3) / 4))) in *.
+  assert (Hne : hex_fixed W key <> []).
+  { assert (HW1 : (1 <= W)%nat) by (subst W; lia). clearbody W.
+    destruct W as [|W']; [lia|]. cbn [hex_fixed]. intro Hc.
+    symmetry in Hc. exact (app_cons_not_nil _ _ _ Hc). }
+  unfold unhex. destruct (hex_fixed W key) eqn:E; [congruence|].
+  rewrite <- E, unhex_acc_hex_fixed, N.mod_small by assumption. reflexivity.
+Qed.
+
+(* ---------- get_cmc ---------- *)
+
+Lemma mk_vspec_inv : forall cs sz v, mk_vspec cs sz = Ok v ->
+  exists c g0 g1 g2,
+    (0 < c)%Z /\
+    v = {| vs_chunk := c; vs_grid := [g0; g1; g2];
+           vs_nbits := map N.log2_up [g0; g1; g2] |} /\
+    sumN (map spec_nbits [g0; g1; g2]) <= 64.
+Proof.
+  intros cs sz v. unfold mk_vspec.
+  destruct sz as [|s0 [|s1 [|s2 [|]]]]; cbn [length Nat.eqb andb negb];
+    try discriminate.
+  destruct (all_pos [s0; s1; s2]); cbn [negb]; [|discriminate].
+  destruct cs as [|c0 [|c1 [|c2 [|]]]]; cbn [length Nat.eqb andb negb];
+    try discriminate.
+  destruct (all_pos [c0; c1; c2]) eqn:Hpos; cbn [andb negb]; [|discriminate].
+  destruct (all_same [c0; c1; c2]); cbn [negb]; [|discriminate].
+  cbn [nth map].
+  match goal with |- context [64 <? ?s] => destruct (N.ltb_spec 64 s) as [Hs|Hs] end;
+    [discriminate|].
+  intro H. injection H as <-.
+  exists c0, (grid_of s0 c0), (grid_of s1 c0), (grid_of s2 c0).
+  split; [|split; [reflexivity | exact Hs]].
+  unfold all_pos in Hpos. cbn [forallb] in Hpos.
+  apply andb_true_iff in Hpos. destruct Hpos as [Hpos _].
+  apply Z.ltb_lt. exact Hpos.
+Qed.
+
+Lemma quot_div_exact : forall x c, (0 < c)%Z -> (x mod c = 0)%Z -> (x ÷ c = x / c)%Z.
+Proof.
+  intros x c Hc Hm.
+  transitivity ((x / c * c) ÷ c)%Z.
+  - f_equal. pose proof (Z.div_mod x c ltac:(lia)). lia.
+  - apply Z.quot_mul. lia.
+Qed.
+
+Lemma exact_nonneg : forall x c, (0 < c)%Z -> (x mod c = 0)%Z ->
+  (0 <=? x)%Z = negb (x / c <? 0)%Z.
+Proof.
+  intros x c Hc Hm. pose proof (Z.div_mod x c ltac:(lia)) as Hd. rewrite Hm in Hd.
+  destruct (Z.leb_spec 0 x), (Z.ltb_spec (x / c) 0); try reflexivity; nia.
+Qed.
+
+Lemma get_cmc_total_spec : forall cs sz v x y z,
+  mk_vspec cs sz = Ok v ->
+  get_cmc_model v x y z =
+    if on_lattice_in_grid v x y z
+    then Ok (cmc_spec (vs_grid v)
+               (map Z.to_N [(x / vs_chunk v)%Z; (y / vs_chunk v)%Z; (z / vs_chunk v)%Z]))
+    else IOErr.
+Proof.
+  intros cs sz v x y z Hv.
+  destruct (mk_vspec_inv _ _ _ Hv) as (c & g0 & g1 & g2 & Hc & -> & Hsum).
+  unfold get_cmc_model, on_lattice_in_grid, cmc_model.
+  cbn [vs_chunk vs_grid vs_nbits combine forallb].
+  destruct (Z.eqb_spec (x mod c) 0) as [Hx|Hx];
+  destruct (Z.eqb_spec (y mod c) 0) as [Hy|Hy];
+  destruct (Z.eqb_spec (z mod c) 0) as [Hz|Hz]; cbn [andb negb];
+  try (destruct (0 <=? x)%Z, (x / c <? Z.of_N g0)%Z, (0 <=? y)%Z,
+         (y / c <? Z.of_N g1)%Z, (0 <=? z)%Z, (z / c <? Z.of_N g2)%Z; reflexivity).
+  rewrite !quot_div_exact by assumption.
+  rewrite (exact_nonneg x c), (exact_nonneg y c), (exact_nonneg z c) by assumption.
+  assert (Hloop : forall P, length P = 3%nat ->
+            cmc_loop [g0; g1; g2] P (N.to_nat (maxN (map N.log2_up [g0; g1; g2]))) =
+            cmc_spec [g0; g1; g2] P).
+  { intros P HP. apply cmc_loop_is_spec; [reflexivity | assumption | exact Hsum]. }
+  rewrite Hloop by reflexivity.
+  cbn [existsb lt_all combine forallb].
+  destruct (x / c <? 0)%Z, (x / c <? Z.of_N g0)%Z, (y / c <? 0)%Z,
+    (y / c <? Z.of_N g1)%Z, (z / c <? 0)%Z, (z / c <? Z.of_N g2)%Z; reflexivity.
+Qed.
+
+Lemma on_lattice_facts : forall c g0 g1 g2 nb x y z,
+  on_lattice_in_grid {| vs_chunk := c; vs_grid := [g0; g1; g2]; vs_nbits := nb |} x y z = true ->
+  ((x mod c = 0 /\ 0 <= x /\ x / c < Z.of_N g0) /\
+   (y mod c = 0 /\ 0 <= y /\ y / c < Z.of_N g1) /\
+   (z mod c = 0 /\ 0 <= z /\ z / c < Z.of_N g2))%Z.
+Proof.
+  intros c g0 g1 g2 nb x y z H. unfold on_lattice_in_grid in H.
+  cbn [vs_chunk vs_grid combine forallb] in H.
+  repeat (apply andb_true_iff in H; destruct H as [? H]).
+  repeat match goal with
+  | H : (_ && _)%bool = true |- _ => apply andb_true_iff in H; destruct H
+  end.
+  repeat match goal with
+  | H : (_ =? _)%Z = true |- _ => apply Z.eqb_eq in H
+  | H : (_ <=? _)%Z = true |- _ => apply Z.leb_le in H
+  | H : (_ <? _)%Z = true |- _ => apply Z.ltb_lt in H
+  end.
+  auto.
+Qed.
+
+Lemma get_cmc_inj : forall cs sz v x y z x' y' z' id,
+  mk_vspec cs sz = Ok v ->
+  get_cmc_model v x y z = Ok id -> get_cmc_model v x' y' z' = Ok id ->
+  (x, y, z) = (x', y', z').
+Proof.
+  intros cs sz v x y z x' y' z' id Hv H1 H2.
+  rewrite (get_cmc_total_spec cs sz v _ _ _ Hv) in H1, H2.
+  destruct (mk_vspec_inv _ _ _ Hv) as (c & g0 & g1 & g2 & Hc & -> & Hsum).
+  destruct (on_lattice_in_grid _ x y z) eqn:E1; [|discriminate].
+  destruct (on_lattice_in_grid _ x' y' z') eqn:E2; [|discriminate].
+  apply on_lattice_facts in E1, E2.
+  destruct E1 as ((Hx1 & Hx2 & Hx3) & (Hy1 & Hy2 & Hy3) & (Hz1 & Hz2 & Hz3)).
+  destruct E2 as ((Hx1' & Hx2' & Hx3') & (Hy1' & Hy2' & Hy3') & (Hz1' & Hz2' & Hz3')).
+  cbn [vs_chunk vs_grid map] in H1, H2.
+  injection H1 as H1. injection H2 as H2. rewrite <- H2 in H1.
+  pose proof (Z.div_mod x c ltac:(lia)). pose proof (Z.div_mod y c ltac:(lia)).
+  pose proof (Z.div_mod z c ltac:(lia)). pose proof (Z.div_mod x' c ltac:(lia)).
+  pose proof (Z.div_mod y' c ltac:(lia)). pose proof (Z.div_mod z' c ltac:(lia)).
+  assert (0 <= x / c)%Z by (apply Z.div_pos; lia).
+  assert (0 <= y / c)%Z by (apply Z.div_pos; lia).
+  assert (0 <= z / c)%Z by (apply Z.div_pos; lia).
+  assert (0 <= x' / c)%Z by (apply Z.div_pos; lia).
+  assert (0 <= y' / c)%Z by (apply Z.div_pos; lia).
+  assert (0 <= z' / c)%Z by (apply Z.div_pos; lia).
+  apply cmc_spec_inj in H1.
+  - injection H1 as Ex Ey Ez.
+    apply Z2N.inj in Ex, Ey, Ez; try assumption.
+    f_equal; [f_equal|]; nia.
+  - repeat split; intros [|[|[|d]]] Hd; cbn [nth]; lia.
+  - repeat split; intros [|[|[|d]]] Hd; cbn [nth]; lia.
 Qed.
